@@ -13,7 +13,10 @@ FAM = {"L": [[[None, "meter", 1]], [["kilo", "meter", 1]], [["milli", "meter", 1
        "T": [[[None, "second", 1]], [[None, "minute", 1]], [["milli", "second", 1]], [[None, "hour", 1]]],
        "M": [[[None, "gram", 1]], [["kilo", "gram", 1]], [[None, "pound", 1]]],
        "A": [[[None, "degree", 1]], [[None, "radian", 1]], [[None, "arcminute", 1]]],
-       "V": [[[None, "meter", 1], [None, "second", -1]], [["kilo", "meter", 1], [None, "hour", -1]], [[None, "foot", 1], [None, "second", -1]]]}
+       "V": [[[None, "meter", 1], [None, "second", -1]], [["kilo", "meter", 1], [None, "hour", -1]], [[None, "foot", 1], [None, "second", -1]]],
+       # named units of derived dimensions in the denominator (distance per volume, mass per area): + and - convert the SQUARE of the other unit
+       "FE": [[[None, "mile", 1], [None, "gallon", -1]], [["kilo", "meter", 1], [None, "liter", -1]]],
+       "AD": [[[None, "pound", 1], [None, "acre", -1]], [["kilo", "gram", 1], [None, "hectare", -1]]]}
 
 def frac(n): return Fraction(int(n[1]), int(n[2]))
 
